@@ -392,6 +392,18 @@ def productive_spec(rng, max_classes: int = 6, opts=None, expansion: bool = Fals
             s.classes.append(ClassSpec(f"C{len(s.classes)}", False, a))
             first_prod[a] = len(s.classes) - 1
             s.considered.append(len(s.classes) - 1)
+    # make most grammars properly recursive (binary node / list-of-abstract / unary wrapper)
+    if rng.random() < 0.75:
+        shape = rng.randrange(3)
+        tgt = ("cls", rng.choice([a for a, c in enumerate(s.classes) if c.abstract]))
+        if shape == 0:
+            fs = [("l", tgt), ("r", ("cls", 0))]
+        elif shape == 1:
+            fs = [("xs", ("ann", ("list", tgt), ("listSize", 1, 2))) if (opts or {}).get("ann", True) else ("xs", ("list", tgt))]
+        else:
+            fs = [("e", tgt), ("k", "int")]
+        s.classes.append(ClassSpec(f"R{len(s.classes)}", False, 0, fs))
+        s.considered.append(len(s.classes) - 1)
     for a, i in first_prod.items():
         k = rng.choice([0, 1, 1, 2])
         fs = []
@@ -487,3 +499,28 @@ def reflect(considered: list[type], start: type, expansion: bool = False):
         classes.append(ClassSpec(c.__name__.replace(" ", "_"), ab, p, fields))
     spec = Spec(classes, idx[start], [idx[c] for c in considered if c in idx], expansion)
     return spec, Built(spec, seen, idx)
+
+
+def ty_of_py(t, b: Built):
+    """Real type object -> spec type tuple (for dynamic-SGE genotype keys)."""
+    import typing
+    if t is int:
+        return "int"
+    if t is float:
+        return "float"
+    if t is str:
+        return "str"
+    if t is bool:
+        return "bool"
+    if t in b.index:
+        return ("cls", b.index[t])
+    if hasattr(t, "__metadata__"):
+        raise ValueError("annotated type as key")
+    o = typing.get_origin(t)
+    if o is list:
+        return ("list", ty_of_py(t.__args__[0], b))
+    if o is tuple:
+        return ("tuple",) + tuple(ty_of_py(a, b) for a in t.__args__)
+    if o is Union:
+        return ("union",) + tuple(ty_of_py(a, b) for a in t.__args__)
+    raise ValueError(f"unknown key type {t!r}")
